@@ -37,6 +37,7 @@ struct mock_ep {
 static nni_mtx    mock_mtx = NNI_MTX_INITIALIZER;
 static mock_pipe *pipes[MAXP];
 static int        npipes;
+static uint32_t   pipe_idv[MAXP]; // core id of pipe i, kept after the pipe is gone
 static mock_ep   *eps[MAXP];
 static int        neps;
 static int        ep_events;
@@ -198,7 +199,13 @@ mock_d_init(void *arg, nng_url *url, nni_dialer *d)
 static void
 mock_ep_fini(void *arg)
 {
-	(void) arg;
+	mock_ep *ep = arg;
+	// the memory belongs to the dialer/listener being freed
+	nni_mtx_lock(&mock_mtx);
+	if (ep->idx >= 0 && ep->idx < MAXP && eps[ep->idx] == ep) {
+		eps[ep->idx] = NULL;
+	}
+	nni_mtx_unlock(&mock_mtx);
 }
 static void
 mock_ep_stop(void *arg)
@@ -331,14 +338,19 @@ mock_register(void)
 int
 mock_conn_done(int epi, uint16_t peer, int err)
 {
-	mock_ep   *ep = (epi >= 0 && epi < neps) ? eps[epi] : NULL;
+	mock_ep   *ep;
 	mock_pipe *p  = NULL;
-	if (ep == NULL || npipes >= MAXP) {
-		return (-1);
-	}
 	nni_aio   *a;
 	int        rv;
+	int        idx;
+	// look the endpoint up and take its parked aio in one critical section: an
+	// endpoint whose aio we hold cannot be freed (its stop waits for that aio)
 	nni_mtx_lock(&mock_mtx);
+	ep = (epi >= 0 && epi < neps) ? eps[epi] : NULL;
+	if (ep == NULL || npipes >= MAXP) {
+		nni_mtx_unlock(&mock_mtx);
+		return (-1);
+	}
 	a       = ep->aio;
 	ep->aio = NULL;
 	nni_mtx_unlock(&mock_mtx);
@@ -359,11 +371,13 @@ mock_conn_done(int epi, uint16_t peer, int err)
 		return (-3);
 	}
 	p->peer         = peer;
-	p->idx          = npipes;
+	idx             = npipes;
+	p->idx          = idx;
 	pipes[npipes++] = p;
+	pipe_idv[idx]   = nni_pipe_id(p->np);
 	nni_aio_set_output(a, 0, p->np);
 	nni_aio_finish(a, 0, 0);
-	return (p->idx);
+	return (idx); // the pipe may already have been rejected and freed
 }
 
 int
@@ -451,9 +465,16 @@ mock_pipe_id(int pi)
 {
 	return (pipes[pi] ? nni_pipe_id(pipes[pi]->np) : 0);
 }
+// the id pipe <pi> had when it was created (still answered after the pipe is gone)
+uint32_t
+mock_pipe_id0(int pi)
+{
+	return ((pi >= 0 && pi < MAXP) ? pipe_idv[pi] : 0);
+}
 void
 mock_reset(void)
 {
+	memset(pipe_idv, 0, sizeof(pipe_idv));
 	// indices restart for the next case; the objects themselves are owned and
 	// released by nng (pipes by the reaper, endpoints with their socket)
 	npipes = 0;
